@@ -244,6 +244,33 @@ Section LUModel.
                    dot1 Ln (fun l => fa (ta * n * Ln + i * Ln + l)) (fun l => fb (tb * Ln * p + l * p + j)))
          (seq 0 (prodn S * n * p)).
 
+  (* np.transpose(a, axes) of an N-d array (flat, row-major): the result has shape
+     [shape[axes[k]]]_k and result[r_0, ..., r_{d-1}] = a[s] with s[axes[k]] = r[k], i.e. the source
+     position is sum_k r_k * stride(axes[k]).  Only the positions move: elements are not touched. *)
+  Fixpoint strides (shape : list nat) : list nat :=
+    match shape with
+    | [] => []
+    | _ :: rest => prodn rest :: strides rest
+    end.
+
+  Definition tr_shape (shape axes : list nat) : list nat := map (fun ax => nth ax shape 1) axes.
+
+  Fixpoint tr_src_aux (st : list nat) (axes r : list nat) : nat :=
+    match axes, r with
+    | ax :: axes', rk :: r' => rk * nth ax st 0 + tr_src_aux st axes' r'
+    | _, _ => 0
+    end.
+
+  Definition tr_src (shape axes : list nat) (t : nat) : nat :=
+    tr_src_aux (strides shape) axes (unravel (tr_shape shape axes) t).
+
+  Definition nd_transpose {X : Type} (shape axes : list nat) (fa : nat -> X) : list X :=
+    map (fun t => fa (tr_src shape axes t)) (seq 0 (prodn shape)).
+
+  (* every position 0..cnt-1 occurs exactly once in l *)
+  Definition is_perm_of_seq (cnt : nat) (l : list nat) : bool :=
+    Nat.eqb (length l) cnt && forallb (fun k => Nat.eqb (count_occ Nat.eq_dec l k) 1) (seq 0 cnt).
+
   (* np.dot with a scalar operand: the element-wise product, scalar on its own side *)
   Definition nd_scale (lft : bool) (sc : El) (cnt : nat) (fa : nat -> El) : res (list El) :=
     mapM (fun t => if lft then e_mul L sc (fa t) else e_mul L (fa t) sc) (seq 0 cnt).
